@@ -31,6 +31,9 @@ add("C04", MC, "Every failing-task set (size <= 2/3) x exception kind x completi
     "exhaustive fault-set x interleaving exploration of the real scheduler")
 add("C05", MC, "(a) callback protocol checked on every execution of the exhaustive completion-order sweep; (b) breadth-first search over all histories (depth 6/8) of enter/exit/register/unregister/get on the real dask.callbacks objects against a stack-of-frames reference model.", "5/C05", SCHED_NOTE + " Part (b): LIFO exits only; unregister only outside open contexts.",
     "explicit-state BFS over operation histories + exhaustive interleaving exploration")
+ARR_NOTE = "Trusted: NumPy as reference on the concatenated data; sync scheduler; enumeration bounds as in the evidence rule. Known findings (known_findings.json) are matched by narrow (index-kind, failure-class, input-class) keys."
+add("C20", EX, "Bounded-exhaustive: every chunking x every slice/int/index-vector/mask of every small 1-d array, all index tuples over boundary-hitting per-axis alphabets in 2-d, vindex point lists and .blocks indexers, each compared with NumPy including lazy shape/chunks and per-block shapes.", "5/C20", ARR_NOTE,
+    "bounded exhaustive enumeration of inputs (all chunkings x all indices of small arrays) against a NumPy reference model")
 
 
 def build():
